@@ -7,7 +7,7 @@
     as written; invariants: at most one forward, processed only by a capable node, a capable
     node serves where received, forward targets are capable, a spoofed marker never causes
     local processing.  MC_noprologue.cfg (handlers without a routing prologue: estimate before
-    2bc4585, arrow by code reading) is a negative control TLC must reject.
+    2bc4585, arrow before 9b247be) is a negative control TLC must reject.
 (G) the same module emits every terminal state; each scenario is replayed on the real handlers
     (real routing prologues, real cluster.Router + Registry per node, in-memory HTTP between
     the nodes).  The verdict is taken from the observed hop chain and from where the request
@@ -42,8 +42,8 @@ def run(ctx):
                                  "invariants": ["AtMostOneForward", "ProcessedByCapable", "ServedWhereReceived",
                                                 "ForwardedToCapable", "ForwardedIsServed", "SpoofedMarker"],
                                  "actions_fired": {k: v[0] for k, v in mc.coverage.items() if k in ACTIONS}})
-    # negative control: endpoints modelled WITHOUT a routing prologue (estimate as it was before
-    # 2bc4585; arrow as it still is by code reading) must make TLC reject ProcessedByCapable.
+    # negative control: endpoints modelled WITHOUT a routing prologue (estimate before 2bc4585,
+    # arrow before 9b247be) must make TLC reject ProcessedByCapable.
     np_ = ctx.tlc("routing", "Routing", "MC_noprologue.cfg", allow_violation=True, timeout=600, workers=2)
     if not np_.violated:
         raise InfraError("negative control MC_noprologue.cfg was not rejected by TLC: the invariants are vacuous")
